@@ -46,9 +46,9 @@ claimed.update({
   note="strings.Fields/Split, strconv.ParseUint, net.ParseCIDR on atoms are uninterpreted functions under their documented contracts (trusted standard library); counterexamples are inverted to concrete text and replayed natively.",
   ref="DESIGN.md 6.8"),
  "C12": dict(
-  text="Bounded model checking of the sequential logic: sendPFCPRequestMessage under every loss pattern (k-th transmission answered or none, retries 0..3 quick / 0..8 thorough), handleIncomingResponse for matching/wrong/duplicate sequence numbers, handleHeartbeatRequest in every association state with every reset-channel backlog, handleAssociationSetupRequest for all 8 feature configurations x datapath up/down, getSeqNum for all counters.",
-  note="Narrowed: spacing by resp_timeout, the ticker, tryConnectToN4Peers and 'peer dead => sessions removed' are outside (the engine has no elapsed time: the real Request.GetResponse runs with a model timer that fires when no goroutine can make progress, and a peer goroutine that answers the k-th transmission through the real handleIncomingResponse; the native replay runs the same code with a 15 ms timeout).",
-  ref="DESIGN.md 6.12"),
+  text="Bounded model checking of the association / heartbeat / retransmission logic with the real channel code running under the engine's goroutine and timer model: sendPFCPRequestMessage + Request.GetResponse + handleIncomingResponse with a peer goroutine answering the k-th transmission, under every loss pattern (retries 0..3 quick / 0..8 thorough); the heartbeat monitor end to end (a pending peer-heartbeat reset re-arms the timer with the heartbeat interval; on expiry an unanswered heartbeat is sent 1+max_req_retries times, the peer is declared dead, its sessions are removed, the association is reported done); handleIncomingResponse for matching/wrong/duplicate sequence numbers; handleHeartbeatRequest in every association state with every reset-channel backlog; handleAssociationSetupRequest for all 8 feature configurations x datapath up/down; getSeqNum for all counters.",
+  note="Narrowed: the engine has no elapsed time - a model timer fires when no goroutine can make progress otherwise - so spacing by resp_timeout and by the heartbeat interval is not decided by the solver; the interval used to re-arm the monitor's timer is observed at Ticker.Reset (symbolic durations) and, in the native replay, coarsely on the real clock (300 ms / 40 ms). tryConnectToN4Peers is not run.",
+  ref="DESIGN.md 6.12, 10"),
  "C13": dict(
   text="Bounded model checking of both halves. (1) handleDigestReport on a store holding an arbitrary session (1..2 PDRs of either direction, 0..2 FARs with arbitrary Apply Action): nothing is sent for unknown sessions, sessions without downlink PDR or whose downlink FAR does not ask (or does not exist); otherwise exactly one Session Report Request with the CP SEID, a fresh sequence number and the downlink PDR id. (2) The rate limiter NewDownlinkDataNotifier/Notify/shouldNotify over 3 reports (4 and 5 returned solver unknown and are not claimed) with arbitrary F-SEIDs under a symbolic strictly increasing clock and an arbitrary interval: a first report is always forwarded, two forwarded reports of one session are at least one interval apart, a report is suppressed only within one interval of a forwarded one. The report channel holds one event and is drained by a slow consumer goroutine, so a full channel must delay the limiter, never make it drop.",
   note="The clock is an input: every time.Now/Since of repository code reads a fresh symbolic instant; the native replay feeds the same instants to the real code through a patched copy of package time in the overlay of the replay build. The UP4 digest loop, the BESS socket reader and node.Serve's dispatch are blocking service loops and are outside. One association.",
@@ -76,7 +76,7 @@ claimed.update({
   note="A failing Write applies nothing (P4Runtime batch atomicity as the agent uses it: one update per Write) except ALREADY_EXISTS, which the agent tolerates. Pools shrunk to 6 cells so that exhaustion and reuse are reachable. Two faults in one history are outside.",
   ref="DESIGN.md 6.15, 10"),
  "C16": dict(
-  text="Bounded model checking of encoding validity: every table entry, meter entry and counter request the P4rtTranslator builds (all five table builders on arbitrary arguments; sendCreate/sendDelete end to end for symbolic uplink and downlink PDRs) is validated, field by field, against the P4Info regenerated on every run from conf/p4/bin/p4info.txt: table/action/field/param ids exist and belong together, value widths fit the declared bit widths in canonical form, match kinds agree, priorities present exactly for ternary/range tables, meter/counter indices within size. The start-up identifier pools (meter and counter cells, tunnel-peer and application ids) are checked to hold only values valid for the declared arrays and field widths. A precondition re-runs the generator and compares internal/p4constants byte for byte.",
+  text="Bounded model checking of encoding validity: every table entry, meter entry and counter request the P4rtTranslator builds (all five table builders on arbitrary arguments; sendCreate/sendDelete - and, for the uplink PDR, sendUpdate - end to end for symbolic uplink and downlink PDRs) is validated, field by field, against the P4Info regenerated on every run from conf/p4/bin/p4info.txt: table/action/field/param ids exist and belong together, value widths fit the declared bit widths in canonical form, match kinds agree, priorities present exactly for ternary/range tables, meter/counter indices within size. The start-up identifier pools (meter and counter cells, tunnel-peer and application ids) are checked to hold only values valid for the declared arrays and field widths. A precondition re-runs the generator and compares internal/p4constants byte for byte.",
   note="Rule values inside the envelope the PFCP handlers guarantee (prefix masks, ordered ports, 6-bit QFI, 40-bit rates, slice <= 15, TC <= 3). The validator is the harness's own reading of the P4Runtime specification section 9.1; a real switch is outside.",
   ref="DESIGN.md 6.16, 10"),
  "C18": dict(
